@@ -97,6 +97,7 @@ def units(tier, seed):
             for n in range(0, NMAX[tier] + 1):
                 us.append({'kind': 'fn', 'name': name, 'i': i, 'n': n, 'tier': tier, 'seed': seed})
     us.append({'kind': 'history', 'tier': tier, 'seed': seed})
+    us.append({'kind': 'tiny', 'tier': tier, 'seed': seed})
     return us
 
 
@@ -117,6 +118,8 @@ def mpdiff(g, x, n):
 def run_unit(u):
     if u['kind'] == 'history':
         return run_history(u)
+    if u['kind'] == 'tiny':
+        return run_tiny(u)
     out = {'evals': 0, 'nontrivial': 0, 'fails': [], 'samples': [], 'maxima': {}, 'counters': {}, 'lists': {}}
     if u['kind'] == 'uncovered':
         out['lists']['exported_but_not_covered'] = [u['name']]
@@ -211,6 +214,51 @@ def run_unit(u):
     return out
 
 
+TINY = [1e-7, -3e-7, 2e-9, 1e-12]
+# closed forms that add an O(1) constant to x (sin / cos: phase shift n pi / 2) or subtract two O(1) powers (arctanh) reach an
+# ABSOLUTE accuracy of 1e-16 by construction; relative accuracy near the zeros of their derivatives is not claimed
+TINY_NOT_CLAIMED = ('sin', 'cos', 'arctanh')
+
+
+def run_tiny(u):
+    """base points very close to 0 (inside the domain): a derivative whose true value is tiny there (odd-order derivatives of
+    even functions and vice versa) must be right to RELATIVE accuracy, not merely small - closed forms that subtract nearly
+    equal quantities lose exactly that"""
+    out = {'evals': 0, 'nontrivial': 0, 'fails': [], 'samples': [], 'maxima': {}, 'counters': {}, 'lists': {}}
+    S = specs()
+    for name in [n for n in exported() if n in S]:
+        if name in TINY_NOT_CLAIMED:
+            continue
+        for i, (label, extras, g, dom, exact) in enumerate(S[name]):
+            if exact is not None:
+                continue
+            pts = [x for x in TINY if dom(x)]
+            if not pts:
+                continue
+            for n in range(0, 6):
+                try:
+                    refs = np.array([mpdiff(g, x, n) for x in pts])
+                except Exception:
+                    out['counters']['oracle_unavailable'] = out['counters'].get('oracle_unavailable', 0) + 1
+                    continue
+                try:
+                    got = np.asarray(getattr(ND, name)(*(extras + (np.array(pts),)), n=n), dtype=float)
+                except Exception as ex:
+                    out['fails'].append({'sig': 'C16|%s|tiny argument|raises' % label, 'case': dict(u, name=name, i=i, n=n), 'detail': {'error': str(ex)[:150]}})
+                    break
+                out['evals'] += len(pts)
+                out['nontrivial'] += int(np.count_nonzero(refs))
+                err = np.abs(got - refs)
+                tol = 1e-9 * np.abs(refs) + 1e-290
+                rel = err / (np.abs(refs) + 1e-290)
+                out['maxima']['relative_error_tiny_arguments'] = max(out['maxima'].get('relative_error_tiny_arguments', 0.0), float(np.nanmax(rel)))
+                if not np.all(err <= tol):
+                    k = int(np.argmax(~(err <= tol)))
+                    out['fails'].append({'sig': 'C16|%s|n=%d|tiny argument (relative accuracy)' % (label, n), 'case': dict(u, name=name, i=i, n=n),
+                                         'detail': {'x': pts[k], 'got': float(got[k]), 'expected': float(refs[k]), 'relative_error': float(rel[k])}})
+    return out
+
+
 def run_history(u):
     """all functions called one after another IN ONE PROCESS, for each order n, in forward and in reverse order of the function
     table, and on arrays whose entries are NEARLY equal: a value may only depend on the arguments of the call - not on
@@ -267,4 +315,6 @@ def run_history(u):
 def replay(case):
     if case.get('kind') == 'history':
         return run_history(case)['fails']
+    if case.get('kind') == 'tiny':
+        return [f for f in run_tiny(case)['fails'] if f['case'].get('name') == case.get('name') and f['case'].get('n') == case.get('n')]
     return run_unit(case)['fails']
